@@ -147,13 +147,16 @@ package bill
 //@   footprint inv
 //@   ensures [replica] err == nil && inv.Identify.UUID == "" && inv.Code == "" && inv.ValueDate == nil && inv.OperationDate == nil
 //
-// options are applied by caller-supplied functions and a JSON decoder: assumed to write only
-// the options object they are given (A-OPTIONS); success means a correction type was given
+// options are applied by caller-supplied functions and a JSON decoder: both are assumed to
+// write only the options object they are given (A-OPTIONS, as assumed frames of those two
+// calls); everything else the function does is checked against its frame, so that it cannot
+// write the source header whose stamps it copies. Success means a correction type was given.
 //@ func prepareCorrectionOptions(o, opts) (err)
-//@   trusted A-OPTIONS: correction option functions and json.Unmarshal write only the options object
 //@   requires o != nil
 //@   modifies CorrectionOptions.Type, CorrectionOptions.IssueDate, CorrectionOptions.Series, CorrectionOptions.Stamps, CorrectionOptions.Reason, CorrectionOptions.Ext, CorrectionOptions.CopyTax, CorrectionOptions.CorrectionOptions, CorrectionOptions.data, elem(*head.Stamp)
 //@   footprint o
+//@   assume-frame $dynamic CorrectionOptions.Type, CorrectionOptions.IssueDate, CorrectionOptions.Series, CorrectionOptions.Stamps, CorrectionOptions.Reason, CorrectionOptions.Ext, CorrectionOptions.CopyTax, CorrectionOptions.CorrectionOptions, CorrectionOptions.data | o
+//@   assume-frame json.Unmarshal CorrectionOptions.Type, CorrectionOptions.IssueDate, CorrectionOptions.Series, CorrectionOptions.Stamps, CorrectionOptions.Reason, CorrectionOptions.Ext, CorrectionOptions.CopyTax, CorrectionOptions.CorrectionOptions | o
 //@   ensures err == nil ==> o.Type != ""
 //
 // regime and addon lookups only read the registries; the definition handed back is the
